@@ -14,7 +14,9 @@
 //   - injects faults (DESIGN.md 2.5): "outage from the k-th mutation" (that call and every later
 //     call, reads included, fail), "process death before the k-th mutation" (os.Exit, for child
 //     processes on a filesystem bucket), "fail the j-th read matching a predicate once" and "let the
-//     j-th matching Get succeed but make the returned reader fail after k bytes" (FailBody).
+//     j-th matching Get succeed but make the returned reader fail after k bytes" (FailBody) and
+//     "uploads of the chosen object(s) fail persistently, or for their first j attempts, while every
+//     other operation succeeds" (DenyUploads).
 //
 // It never panics inside a bucket call (uploads run in errgroup goroutines; a panic there would kill
 // the test process).
@@ -69,6 +71,10 @@ type Bucket struct {
 	readLeft  int // fail when the counter reaches 0 (counts matching reads); <0 = disarmed
 	readGate  func() bool
 	keepReads bool
+
+	denyMatch func(name string) bool // uploads of matching objects are refused ...
+	denyLeft  int                    // ... this many more times (<0 = every time)
+	denied    int                    // refused so far
 
 	bodyFault func(kind, name string) bool
 	bodyLeft  int    // the matching Get whose body fails (counts down to 0); <0 = disarmed
@@ -126,6 +132,7 @@ func (b *Bucket) Heal() {
 	defer b.mu.Unlock()
 	b.outage, b.outageAt, b.exitAt, b.readLeft, b.readFault, b.readGate = false, 0, 0, -1, nil, nil
 	b.bodyFault, b.bodyLeft, b.bodyGate = nil, -1, nil
+	b.denyMatch, b.denyLeft = nil, 0
 }
 
 // InOutage reports whether the outage has begun.
@@ -138,6 +145,18 @@ func (b *Bucket) FailRead(match func(kind, name string) bool, j int, gate func()
 	defer b.mu.Unlock()
 	b.readFault, b.readLeft, b.readGate = match, j, gate
 }
+
+// DenyUploads makes Upload calls for object names accepted by match fail with ErrInjected while every
+// other call succeeds: attempts < 0 = persistently (until Heal), attempts = j > 0 = the first j such
+// attempts. Refused uploads are recorded as injected, failed mutations.
+func (b *Bucket) DenyUploads(match func(name string) bool, attempts int) {
+	b.mu.Lock()
+	defer b.mu.Unlock()
+	b.denyMatch, b.denyLeft, b.denied = match, attempts, 0
+}
+
+// DeniedUploads returns how many uploads DenyUploads has refused.
+func (b *Bucket) DeniedUploads() int { b.mu.Lock(); defer b.mu.Unlock(); return b.denied }
 
 // FailBody lets, once, the j-th (1-based) Get / GetRange call from now on for which match returns
 // true (and gate(), when non-nil, is true) SUCCEED, but makes the reader it returns fail with
@@ -177,6 +196,7 @@ func (b *Bucket) Reset() {
 	b.ops, b.nmut = nil, 0
 	b.outage, b.outageAt, b.exitAt, b.readLeft, b.readFault, b.readGate = false, 0, 0, -1, nil, nil
 	b.bodyFault, b.bodyLeft, b.bodyGate, b.bodyFired = nil, -1, nil, false
+	b.denyMatch, b.denyLeft, b.denied = nil, 0, 0
 }
 
 // Listing returns name -> size of every object of the wrapped bucket.
@@ -268,6 +288,14 @@ func (b *Bucket) mutate(kind, name string, do func() (int64, error)) error {
 		b.outage = true
 	}
 	if b.outage {
+		b.record(Op{Mut: b.nmut, Kind: kind, Name: name, Injected: true, Err: ErrInjected.Error()})
+		return ErrInjected
+	}
+	if kind == "upload" && b.denyMatch != nil && b.denyLeft != 0 && b.denyMatch(name) {
+		if b.denyLeft > 0 {
+			b.denyLeft--
+		}
+		b.denied++
 		b.record(Op{Mut: b.nmut, Kind: kind, Name: name, Injected: true, Err: ErrInjected.Error()})
 		return ErrInjected
 	}
